@@ -14,7 +14,7 @@ impl Prop for C05 {
         "seeded key quadruples (S, S', R, R' pairwise distinct): files built by the real encryptor with a claimed sender public key that does not match the private key used; files built by the independent Lean encryptor with every combination of \
          (private key used, public key claimed, recipient addressed); handshake fields (ephemeral / encrypted static / encrypted payload) exchanged between two authentic files to the same recipient; decryption under 3 wrong recipient keys; \
          the 7 low-order X25519 points and their high-bit aliases as recipient key (encryption must be refused with not a byte written) and as ephemeral key inside a handshake (decryption must fail). \
-         sender naming: keyring lookups with keys that are near an entry's key (characters swapped, reversed, sorted, case-swapped, one character changed, interleaved) must find nothing, and files from keys outside the keyring are reported as unknown by the real binary. compared with the model: accept/reject, reported sender. non-trivial = distinct (scenario, seed)".into()
+         sender naming: keyring lookups with keys that are near an entry's key (characters swapped, reversed, sorted, case-swapped, one character changed, interleaved) must find nothing, and files from keys outside the keyring are reported as unknown by the real binary. an independent Noise X writer (harness, from the crate's primitives) with claimed static key in {own, a victim's, the 7 low-order points} x ss in {honest, skipped, all-zero, repeated es}: only (own, honest) may be accepted; the payload key chosen by the library, recovered by the Lean reader, is neither constant nor a public value. compared with the model: accept/reject, reported sender. non-trivial = distinct (scenario, seed)".into()
     }
     fn cases(&self, tier: &str, seed: u64) -> Vec<Case> {
         let th = tier == "thorough";
@@ -24,6 +24,11 @@ impl Prop for C05 {
         for sc in ["honest", "claim-other", "claim-recipient", "model-claim-other", "wrong-recipient", "swap-ephemeral", "swap-static", "swap-payload", "swap-all-header", "recipient-pub-mismatch"] {
             for _ in 0..n { v.push(case(&[("sc", sc.into()), ("seed", rng.next().to_string())])); }
         }
+        // an independent (hostile) Noise writer: honest control, and files that claim a static key without taking part with its private key
+        for claim in ["own", "victim", "low0", "low1", "low2", "low3", "low4", "low5", "low6"] { for ss in ["honest", "skip", "zero", "same-as-es"] { for _ in 0..(if th { 6 } else { 1 }) {
+            v.push(case(&[("sc", "forged-writer".into()), ("claim", claim.into()), ("ss", ss.into()), ("seed", rng.next().to_string())]));
+        } } }
+        for _ in 0..(if th { 60 } else { 12 }) { v.push(case(&[("sc", "payload-key-secret".into()), ("seed", rng.next().to_string())])); }
         for _ in 0..(if th { 400 } else { 60 }) { v.push(case(&[("sc", "name-lookup".into()), ("seed", rng.next().to_string())])); }
         for _ in 0..(if th { 12 } else { 3 }) { v.push(case(&[("sc", "cli-unknown-sender".into()), ("seed", rng.next().to_string())])); }
         for (i, _) in LOW_ORDER.iter().enumerate() { for alias in ["plain", "highbit"] { for role in ["recipient", "ephemeral"] {
@@ -87,6 +92,35 @@ impl Prop for C05 {
                 let want = Some(Err(crate::props::c17::enc_pk(&spk)));
                 o.impl_obs = format!("exit={:?} sender={:?}", obs.exit, obs.sender()); o.model_obs = format!("{:?}", want); o.validated += 1;
                 if obs.exit != Some(0) || obs.sender() != want { o.oracle_fail = Some(("unknown-sender-reported-as-unknown".into(), format!("a file from a key outside the keyring: exit {:?}, sender line {:?}, expected {:?}", obs.exit, obs.sender(), want))); }
+            }
+            "forged-writer" => {
+                use crate::props::noisew::*;
+                // the writer owns (s, spk); `victim` is s2pk, whose private key it does not have; low-order points have no private key at all
+                let claim = get(c, "claim");
+                let claimed: Vec<u8> = match claim { "own" => spk.clone(), "victim" => s2pk.clone(), l => unhex(LOW_ORDER[l[3..].parse::<usize>().unwrap_or(0)]) };
+                let ss = match get(c, "ss") { "honest" => Ss::Honest, "skip" => Ss::Skip, "zero" => Ss::Zero, _ => Ss::SameAsEs };
+                let f = key_file(&rpk, &Forge { e: &e, s_priv: &s, claimed_s: &claimed, ss, payload: &pk }, &p);
+                let d = imp::key_decrypt(&r, &rpk, &f, &NOSCRIPT); let md = mdec(m, &r, &rpk, &f);
+                let honest = claim == "own" && ss == Ss::Honest;
+                o.tags.push(format!("forged-writer {} {} -> {}", if claim.starts_with("low") { "low-order" } else { claim }, get(c, "ss"), d.res));
+                let label = format!("independent writer, claimed static key = {}, ss = {}", claim, get(c, "ss"));
+                check(&mut o, &label, &d, &md, !honest, if honest { Some(&spk) } else { None });
+            }
+            "payload-key-secret" => {
+                // "no file is ever produced under keys derivable from public data": what the recipient finds as payload key must not be a constant or a public value
+                let f1 = imp::key_encrypt(&s, &spk, &rpk, None, None, &p, &NOSCRIPT).out;
+                let f2 = imp::key_encrypt(&s, &spk, &rpk, None, None, &p, &NOSCRIPT).out;
+                let mut found = vec![];
+                for f in [&f1, &f2] {
+                    let resp = m.ask(&format!("key_open {} {} {}", hex(&r), hex(&rpk), hex(&f[..132.min(f.len())]))); o.validated += 1;
+                    let parts: Vec<&str> = resp.split(' ').collect();
+                    if parts.len() != 5 || parts[0] != "ok" { o.disagreement = Some(format!("the model cannot open the handshake of an honestly written file: {}", resp)); return o; }
+                    found.push((unhex(parts[1]), unhex(parts[4])));
+                }
+                o.impl_obs = format!("payload keys {}.. {}..", hex(&found[0].0[..4]), hex(&found[1].0[..4])); o.model_obs = "opened both handshakes".into();
+                let public: Vec<(&str, Vec<u8>)> = vec![("all-zero", vec![0u8; 32]), ("the sender public key", spk.clone()), ("the recipient public key", rpk.clone()), ("the ephemeral public key", f1[4..36].to_vec()), ("the hash of the ephemeral key", kestrel_crypto::sha256(&f1[4..36]))];
+                for (what, v) in &public { if &found[0].0 == v { o.oracle_fail = Some(("payload-key-not-public".into(), format!("the payload key the library chose is {} ({})", what, hex(v)))); return o; } }
+                if found[0].0 == found[1].0 { o.oracle_fail = Some(("payload-key-not-constant".into(), format!("two files written with the payload key left to the library carry the same payload key {}", hex(&found[0].0)))); return o; }
             }
             "honest" => {
                 let f = imp::key_encrypt(&s, &spk, &rpk, None, None, &p, &NOSCRIPT).out;
